@@ -385,10 +385,13 @@ S_LINES = {"d1": "DTSTART;VALUE=DATE:20240501", "n1": "DTSTART:20240501T100000",
 E_VALS = {"d2": ";VALUE=DATE:20240503", "n2": ":20240502T123000", "u2": ":20240502T123000Z",
           "z2": ";TZID=Europe/Berlin:20240331T123000", "bad-dur": ":P1D", "d1": ";VALUE=DATE:20240501"}
 D_LINES = {"P0": "DURATION:P0D", "P1D": "DURATION:P1D", "PT1H": "DURATION:PT1H", "P1DT2H": "DURATION:P1DT2H",
-           "PT0S": "DURATION:PT0S", "bad-date": "DURATION:20240501", "-PT1H": "DURATION:-PT1H"}
+           "PT0S": "DURATION:PT0S", "bad-date": "DURATION:20240501", "-PT1H": "DURATION:-PT1H",
+           # duration texts as long as a DATE (8), a DATE-TIME (15) or a UTC DATE-TIME (16), and week forms
+           "len8": "DURATION:PT12H30M", "len15": "DURATION:P100DT10H10M10S", "len16": "DURATION:P1000DT10H10M10S", "len8d": "DURATION:P1234567D", "2W": "DURATION:P2W"}
 PARSED = dict(VALS)
 PARSED.update({"bad-dur": timedelta(hours=1), "bad-period": (1, 2), "bad-date": date(2024, 5, 1), "PT0S": timedelta(0),
-               "-PT1H": timedelta(hours=-1)})
+               "-PT1H": timedelta(hours=-1), "len8": timedelta(hours=12, minutes=30), "len15": timedelta(days=100, hours=10, minutes=10, seconds=10),
+               "len16": timedelta(days=1000, hours=10, minutes=10, seconds=10), "len8d": timedelta(days=1234567), "2W": timedelta(weeks=2)})
 PARSED.update(DURS)
 
 
@@ -415,7 +418,11 @@ def run_parse(case):
     try:
         c = cls.from_ical("\r\n".join(lines) + "\r\n")
     except ValueError as e:
-        # VTODO is strict: a line it cannot parse fails the whole parse (C04); nothing to evaluate
+        # VTODO is strict: a line it cannot parse fails the whole parse (C04); nothing to evaluate - unless every line is valid
+        if not any(t.startswith("bad") for t in ss + es + ds):
+            return {"state": ("parse-ValueError-on-valid-lines",), "trans": 1, "nontrivial": True, "outcome": "FAIL",
+                    "fails": [{"cls": f"{cname}:valid-lines-rejected", "case": case, "expected": "a component", "observed": str(e)[:120],
+                               "size": len(repr(case)), "unit_test": unit_test(case)}]}
         return {"state": ("parse-ValueError",), "trans": 1, "traces": 0, "outcome": "parse-ValueError", "fails": []}
     m = Model(True)
     dropped = {name for name, _ in c.errors}
@@ -423,6 +430,10 @@ def run_parse(case):
     m.E = [norm_parsed(PARSED[e], provider) for e in es]
     m.D = [PARSED[d] for d in ds]
     if c.errors:
+        if not any(t.startswith("bad") for t in ss + es + ds):
+            return {"state": ("valid-line-dropped",), "trans": 1, "nontrivial": True, "outcome": "FAIL",
+                    "fails": [{"cls": f"{cname}:valid-line-dropped", "case": case, "expected": "no errors", "observed": repr(c.errors)[:160],
+                               "size": len(repr(case)), "unit_test": unit_test(case)}]}
         return {"state": ("parse-errors",), "trans": 1, "traces": 0, "outcome": "lenient-dropped-line", "fails": []}
     label = check_state(cname, c, m, fails, case)
     for f in fails:
